@@ -57,6 +57,16 @@ func InitGenesis(
 
 	for _, proposal := range genesisState.Proposals {
 		k.SaveProposal(ctx, proposal)
+		// rebuild the queues the end blocker works from: a proposal still in voting goes back to the
+		// active queue, a finished one whose enactment period is not over to the enactment queue
+		switch {
+		case proposal.Result == types.Pending:
+			k.AddToActiveProposals(ctx, proposal)
+		case proposal.Result == types.Enactment,
+			proposal.Result != types.Passed && proposal.Result != types.PassedWithExecFail && proposal.Result != types.Unknown &&
+				(proposal.EnactmentEndTime.After(ctx.BlockTime()) || proposal.MinEnactmentEndBlockHeight >= ctx.BlockHeight()):
+			k.AddToEnactmentProposals(ctx, proposal)
+		}
 	}
 
 	for _, vote := range genesisState.Votes {
